@@ -664,7 +664,7 @@ func TestC35(t *testing.T) {
 	rec := ev.New("C35", "generated term (3-12 P-Reps + unknown ones, 1-8 voters with initial delegations/bonds consistent with the P-Rep totals, 0-14 vote/enable events with non-negative running amounts) run through the real IISS4 reward calculation; non-trivial = some voter is paid and a non-zero vote event targets a finally rewardable P-Rep; distinct by the whole case")
 	defer rec.Flush(t)
 	t.Run("terms", func(t *testing.T) {
-		ev.Check(t, 6000, 60000, func(rt *rapid.T) {
+		ev.Check(t, 6000, 200000, func(rt *rapid.T) {
 			c := c35Gen(rt)
 			desc := c.desc()
 			res, err := c35Run(c)
